@@ -91,14 +91,69 @@ func (h *halfPipe) Close() error {
 }
 
 // endConn is what one honest end sees: it reads from in and writes to out. The adversary owns the other sides.
+// Once armed it is also a faulty transport: the underlying Write number i (counted from arming; after the handshake
+// every underlying Write is exactly one sealed frame) accepts only faults[i] bytes and returns a timeout-style error,
+// like a write deadline expiring mid-frame. Later writes work again.
 type endConn struct {
 	in, out *halfPipe
+
+	fmu    sync.Mutex
+	armed  bool
+	calls  int
+	faults map[int]int
+	emits  []emission
 }
+
+// emission: what one underlying Write call put on the link.
+type emission struct {
+	call   int
+	asked  int
+	bytes  []byte
+	failed bool
+}
+
+type timeoutErr struct{}
+
+func (timeoutErr) Error() string   { return "verif: i/o timeout (injected)" }
+func (timeoutErr) Timeout() bool   { return true }
+func (timeoutErr) Temporary() bool { return true }
 
 func newEndConn() *endConn { return &endConn{in: newHalfPipe(), out: newHalfPipe()} }
 
-func (c *endConn) Read(p []byte) (int, error)  { return c.in.Read(p) }
-func (c *endConn) Write(p []byte) (int, error) { return c.out.Write(p) }
+func (c *endConn) arm(faults map[int]int) {
+	c.fmu.Lock()
+	c.armed, c.calls, c.faults, c.emits = true, 0, faults, nil
+	c.fmu.Unlock()
+}
+
+func (c *endConn) Read(p []byte) (int, error) { return c.in.Read(p) }
+func (c *endConn) Write(p []byte) (int, error) {
+	c.fmu.Lock()
+	if !c.armed {
+		c.fmu.Unlock()
+		return c.out.Write(p)
+	}
+	call := c.calls
+	c.calls++
+	k, fail := c.faults[call]
+	if fail && k > len(p) {
+		k = len(p)
+	}
+	if !fail {
+		k = len(p)
+	}
+	c.emits = append(c.emits, emission{call: call, asked: len(p), bytes: append([]byte(nil), p[:k]...), failed: fail})
+	c.fmu.Unlock()
+	if k > 0 {
+		if _, err := c.out.Write(p[:k]); err != nil {
+			return 0, err
+		}
+	}
+	if fail {
+		return k, timeoutErr{}
+	}
+	return k, nil
+}
 func (c *endConn) Close() error {
 	c.in.Close()
 	c.out.Close()
